@@ -52,6 +52,8 @@ func (s EStep) coq() string {
 		return fmt.Sprintf("uClose %d", s.S)
 	case "abort":
 		return fmt.Sprintf("uAbort %d", s.S)
+	case "flush":
+		return fmt.Sprintf("(* Flush with election id %s: not a step of the model *)", s.ID.Coq())
 	}
 	panic("bad step " + s.K)
 }
@@ -94,6 +96,12 @@ func runEScript(c ECase) ([]drv.ObsOut, error) {
 			rs, err = s.SendN(m, 1)
 		case "probe":
 			rs, err = s.SendBarrier(probeReq(st.OpID, st.ID))
+		case "flush":
+			// a Flush carrying an election id is not an announcement: whatever it answers, the election state stays
+			// (the model has no step for it: it is left out of the history given to Coq)
+			d.DoFlush(drv.FlushSpec{Elec: "id", ID: st.ID, NI: "all"}.FlushReq())
+			outs = append(outs, o)
+			continue
 		case "close":
 			err = s.HalfClose()
 		case "abort":
@@ -207,9 +215,24 @@ func genECase(r *drv.Rng) ECase {
 					opid++
 				}
 			}
-		case x < 18:
+		case x < 17:
 			if len(ls) < nsess {
 				connect()
+			}
+		case x < 18:
+			// a Flush with an election id (higher than, equal to or lower than anything announced)
+			id := genID(r)
+			if len(last) > 0 {
+				ks := []int{}
+				for k := range last {
+					ks = append(ks, k)
+				}
+				sort.Ints(ks)
+				b := last[ks[r.Intn(len(ks))]]
+				id = drv.Pick(r, drv.U128{Hi: b.Hi + 1, Lo: b.Lo}, drv.U128{Hi: b.Hi, Lo: b.Lo + 3}, *b, id)
+			}
+			if !id.IsZero() {
+				c.Steps = append(c.Steps, EStep{K: "flush", ID: &id})
 			}
 		case x < 19:
 			c.Steps = append(c.Steps, EStep{K: "close", S: s})
@@ -392,6 +415,10 @@ func runC05(args []string) error {
 		nann := 0
 		ids := map[drv.U128]bool{}
 		for j, st := range c.Steps {
+			if st.K == "flush" {
+				rep.Stats["step_flush"]++
+				continue
+			}
 			hs = append(hs, st.coq())
 			os = append(os, drv.OutCoq(outs[j]))
 			rep.Stats["step_"+st.K]++
